@@ -874,9 +874,11 @@ class Extractor:
         while loop (StableSelectingNetwork) stay marked as not fully modelled."""
         loopid = self.fresh()
         carried = [n for n in _assigned_names(s.body) if self.lookup(n) is not None and n not in self.module_vars]
+        inits = {n: self.lookup(n) for n in carried}
         for n in carried:
             self.rebind(n, ("loopvar", n, loopid))
         test = self.ev(s.test)
+        self.loopdefs[("while", loopid)] = (test, None)
         if any(isinstance(n, ast.AugAssign) and _looks_like_domain(n.target) for st in s.body for n in ast.walk(st)):
             self.emit(Unmodelled, s, what="While")  # hardware emitted inside a while loop: iteration structure unknown
         self.frames.append(("while", test, loopid))
@@ -888,6 +890,7 @@ class Extractor:
         finally:
             self.frames.pop()
         for n in carried:
+            self.loopdefs[(n, loopid)] = (inits[n], self.lookup(n))
             self.rebind(n, ("loopvar", n, loopid))
         if s.orelse:
             self.walk_body(s.orelse)
